@@ -65,6 +65,16 @@ func VerifRun_C03c() {
 	c03compare(src)
 }
 
+// e: the last token of the file - operators, `...` and `::` made of several characters must be recognised
+// when they are the final bytes of the text
+var c03ePrefixes = []string{"return ", "::a", "x=a", "local function f(...) return a", "x=1 goto a ::a"}
+
+func VerifRun_C03e() {
+	pi := verifConcretize(verifRange("prefix", 0, len(c03ePrefixes)-1))
+	tail := verifBytesIn("tail", verifParam("N"), ".:a=~<>/ \n")
+	c03compare(append([]byte(c03ePrefixes[pi]), tail...))
+}
+
 var _ = lexer.TkEOF
 
 // a: token level — K symbolic token kinds served to the real parser (lexer overridden), compared with
